@@ -406,10 +406,20 @@ func (w *cronWorld) genJC(nsname string, now int64) (*execution.JobConfig, tzCho
 
 func name2uid(n string) string { return strings.ReplaceAll(n, "/", "-") }
 
+// firedStr prints the requests of one tick in canonical order (time, then key): the order in
+// which different keys due in the same tick are served is the heap's tie order, which the
+// property leaves unspecified (the monitors judge per-key order on the raw stream).
 func firedStr(f []fired) string {
 	if len(f) == 0 {
 		return "-"
 	}
+	f = append([]fired(nil), f...)
+	sort.SliceStable(f, func(a, b int) bool {
+		if f[a].ts != f[b].ts {
+			return f[a].ts < f[b].ts
+		}
+		return Q(f[a].key) < Q(f[b].key)
+	})
 	var sb strings.Builder
 	for i, x := range f {
 		if i > 0 {
